@@ -247,7 +247,7 @@ func checkC18(w *World, r *Report) {
 		for _, ca := range w.Within(ro.createAll, 3) {
 			cinfo := ca.Pkg.TypesInfo
 			for _, c := range callsIn(ca.Decl.Body, true) {
-				if callee(cinfo, c) == ro.createInstance.Obj {
+				if ro.isCreate(callee(cinfo, c)) {
 					m++
 					rcv, _, _ := methodCall(c)
 					fv := fieldOf(cinfo, rcv)
